@@ -316,7 +316,20 @@ class PageBreakCalculator(BaseModel):
                 actual_font = 1
 
                 if table_attrs:
-                    pass
+                    # measure the cell with its own font and size (table_attrs
+                    # is already restricted to the displayed columns)
+                    from ..attributes import BroadcastValue
+
+                    fonts = getattr(table_attrs, "text_font", None)
+                    sizes = getattr(table_attrs, "text_font_size", None)
+                    if fonts:
+                        actual_font = BroadcastValue(value=fonts).iloc(
+                            row_idx, width_idx
+                        )
+                    if sizes:
+                        actual_font_size = BroadcastValue(value=sizes).iloc(
+                            row_idx, width_idx
+                        )
 
                 text_width = get_string_width(
                     cell_value,
